@@ -137,6 +137,20 @@ def run(ctx):
         ga = md.shrake_rupley(t, probe_radius=probe, n_sphere_points=nsp, change_radii=change, atom_indices=idx)[0]
         if not (np.array_equal(ga[sel], got[sel]) and np.all(ga[~sel] == -1)):
             viol("selection", "atom_indices=%s: selected atoms %s (all-atom run %s), unselected %s" % (idx.tolist(), ga[sel].tolist(), got[sel].tolist(), ga[~sel].tolist()), rp)
+        # which atoms are computed at all: the pattern of -1 against the selection mask of the model (maskOf), for the selection, no selection
+        # and the empty one
+        if ctx.driver_ok:
+            sels_ = [("none", None), ("-", np.array([], dtype=int)), (",".join(str(int(i_)) for i_ in idx) if len(idx) else "-", idx)]
+            masks_ = ctx.driver.query(["sasamask %d %s" % (t.n_atoms, s_) for s_, _ in sels_])
+            for (s_, arg_), mk_ in zip(sels_, masks_):
+                try:
+                    pat_ = "".join("0" if v_ == -1 else "1" for v_ in md.shrake_rupley(t, probe_radius=probe, n_sphere_points=nsp, change_radii=change, atom_indices=arg_)[0])
+                except Exception as e_:
+                    pat_ = "raised " + type(e_).__name__
+                ctx.count("selection masks compared with the model")
+                if mk_ != pat_:
+                    ctx.broke("correspondence:selection-mask", "atom_indices=%s on %d atoms: computed atoms %s, the model's mask %s" % (s_, t.n_atoms, pat_, mk_))
+                    break
         # a selection that matches nothing (top.select("resname LIG") without a ligand): nothing is computed, every atom and residue reports -1
         for empty_ in (np.array([], dtype=int), [], ()):
             try:
